@@ -28,6 +28,15 @@ Theorem C06_intersect_1d_tiles : forall old new, allpos old -> allpos new -> zsu
 Proof. exact intersect_1d_tiles. Qed.
 Print Assumptions C06_intersect_1d_tiles.
 
+(* ... and the pieces PARTITION the old chunks: every element lies in exactly one piece, listed under the new chunk
+   that contains the element (no piece is listed twice, none is missing). *)
+Theorem C06_intersect_1d_partition : forall old new x,
+  allpos old -> allpos new -> zsum old = zsum new -> 0 <= x < zsum old ->
+  forall j, length (filter (fun pc => covers pc (loc old 0 x)) (nth j (intersect_1d old new) [])) =
+            if Nat.eqb j (fst (loc new 0 x)) then 1%nat else 0%nat.
+Proof. exact intersect_1d_partition. Qed.
+Print Assumptions C06_intersect_1d_partition.
+
 (* vis and weights: zero exactly on the elements covered by their own absent chunks, otherwise the stored value
    (weights: stored weights * stored weights_channel). *)
 Theorem C06_vis_weights : forall c p, cfg_ok c p ->
